@@ -57,6 +57,7 @@ type completion struct {
 	applied  int
 	exist    bool
 	existKey []byte
+	stale    bool // answer for a Flush request of a flush that has already failed: fail it, count nothing
 }
 
 type kvPair struct{ k, v []byte }
@@ -178,6 +179,7 @@ type env struct {
 	resolves    []resolveRec
 	commitKeys  [][]byte
 	rpcMuts     map[uint64]map[string][]byte // generation -> mutations seen in Flush requests
+	deadGens    map[uint64]bool              // generations whose flush function has returned an error
 
 	entered chan struct{}
 	release chan completion
@@ -339,7 +341,7 @@ func setThresholds(minKeys, minSize, force int, f func()) {
 func newEnv(mode string, minKeys, minSize, force int, splits [][]byte) *env {
 	e := &env{mode: mode, remote: map[string][]byte{}, cur: map[string][]byte{}, pending: map[string][]byte{},
 		entered: make(chan struct{}, 4), release: make(chan completion, 1), rpcs: make(chan *pendingRPC, 256),
-		lockKeys: map[string]bool{}, rpcMuts: map[uint64]map[string][]byte{}}
+		lockKeys: map[string]bool{}, rpcMuts: map[uint64]map[string][]byte{}, deadGens: map[uint64]bool{}}
 	if mode == "bare" {
 		setThresholds(minKeys, minSize, force, func() {
 			e.p = unionstore.NewPipelinedMemDB(e.bareGetter, e.bareFlush)
@@ -386,6 +388,19 @@ func (h *hijack) SendRequest(ctx context.Context, addr string, req *tikvrpc.Requ
 	switch req.Type {
 	case tikvrpc.CmdFlush:
 		fr := req.Flush()
+		conflict := func() (*tikvrpc.Response, error) {
+			return &tikvrpc.Response{Resp: &kvrpcpb.FlushResponse{Errors: []*kvrpcpb.KeyError{{
+				Conflict: &kvrpcpb.WriteConflict{StartTs: fr.StartTs, ConflictTs: fr.StartTs + 1, ConflictCommitTs: fr.StartTs + 2, Key: fr.Mutations[0].Key},
+			}}}}, nil
+		}
+		// a batch of a flush that has already failed (the batch executor does not wait for the other batches after the
+		// first error): the request is late, fail it without counting it
+		e.mu.Lock()
+		late := e.deadGens[fr.Generation]
+		e.mu.Unlock()
+		if late {
+			return conflict()
+		}
 		n := atomic.AddInt32(&e.inflight, 1)
 		e.mu.Lock()
 		if n > e.maxInflight {
@@ -414,6 +429,9 @@ func (h *hijack) SendRequest(ctx context.Context, addr string, req *tikvrpc.Requ
 			}
 		}
 		atomic.AddInt32(&e.inflight, -1)
+		if c.stale {
+			return conflict()
+		}
 		if !c.ok {
 			e.mu.Lock()
 			e.unreportedFromRPC()
@@ -525,21 +543,32 @@ func (e *env) waitStarted() (rpc bool, ok bool) {
 		}
 	}
 	dl := time.Now().Add(watchdog)
-	for {
-		select {
-		case r := <-e.rpcs:
-			e.held = append(e.held, r)
-			e.running = true
-			return true, true
-		default:
-		}
-		if !e.p.OnFlushing() {
+	take := func() bool {
+		for {
 			select {
 			case r := <-e.rpcs:
+				e.mu.Lock()
+				late := e.deadGens[r.req.Generation]
+				e.mu.Unlock()
+				if late {
+					r.reply <- completion{stale: true}
+					continue
+				}
 				e.held = append(e.held, r)
 				e.running = true
-				return true, true
+				return true
 			default:
+				return false
+			}
+		}
+	}
+	for {
+		if take() {
+			return true, true
+		}
+		if !e.p.OnFlushing() {
+			if take() {
+				return true, true
 			}
 			e.running = false
 			return false, true
@@ -565,6 +594,7 @@ func (e *env) releaseFlush(c completion) bool {
 		e.release <- c
 		return e.waitNotFlushing()
 	}
+	gen := e.p.VerifGeneration()
 	for _, r := range e.held {
 		r.reply <- c
 	}
@@ -581,6 +611,12 @@ func (e *env) releaseFlush(c completion) bool {
 			e.dead = true
 			return false
 		}
+	}
+	if !c.ok {
+		// the flush function has returned its error; requests of its other batches may still arrive
+		e.mu.Lock()
+		e.deadGens[gen] = true
+		e.mu.Unlock()
 	}
 	return true
 }
